@@ -18,7 +18,7 @@ PROPS = {
         level='proof',
         verus=['span', 'patterns', 'lexing', 'url', 'jsdoc', 'edit_distance', 'mask', 'mask_parser', 'document', 'vec_ext', 'comments', 'comments_doc', 'lhs_masker'],
         kani_quick=['lexing.whitespace_5', 'jsdoc.parse_inline_tag_4', 'jsdoc.parse_inline_tag_5'],
-        rac=['lexers', 'url_scanner', 'document_tiles', 'remove_indices', 'condense_indices', 'markdown_tokens', 'comment_frontends', 'lhs_frontend', 'typst_frontend', 'rule_spans', 'lint_group_cache'],
+        rac=['lexers', 'lexer_literals', 'url_scanner', 'document_tiles', 'remove_indices', 'condense_indices', 'markdown_tokens', 'comment_frontends', 'lhs_frontend', 'typst_frontend', 'rule_spans', 'lint_group_cache'],
         kani_thorough=['lexing.whitespace_5', 'lexing.whitespace_8', 'lexing.hostname_4', 'lexing.url_4',
                        'jsdoc.parse_inline_tag_4', 'jsdoc.parse_inline_tag_5', 'jsdoc.parse_inline_tag_6'],
         unverified=[
@@ -38,7 +38,7 @@ PROPS = {
         verus=['lexing', 'url', 'number', 'mask', 'mask_parser', 'document', 'vec_ext', 'comments', 'comments_doc', 'lhs_masker'],
         kani_quick=['lexing.whitespace_5'],
         kani_thorough=['lexing.whitespace_5', 'lexing.whitespace_8', 'lexing.hostname_4', 'lexing.url_4'],
-        rac=['lexers', 'url_scanner', 'document_tiles', 'remove_indices', 'condense_indices', 'markdown_tokens'],
+        rac=['lexers', 'lexer_literals', 'url_scanner', 'document_tiles', 'remove_indices', 'condense_indices', 'markdown_tokens'],
         unverified=[
             'tiling preservation is PROVED for condense_spaces, condense_dotted_initialisms, condense_number_suffixes (the latter modulo the condense_indices contract: peekable() body, bounded-rac) and, since fix D11, condense_newlines; match_quotes and newlines_to_breaks are PROVED (spans untouched, twins mutual); condense_contractions/ellipsis/latin (condense_pattern over thread_local patterns with an Fn(&mut Token) callback) and Document::parse as a whole are covered by the bounded stand-in rac:document_tiles only',
             'every front-end other than plain English (Markdown byte/char bookkeeping, Mask::parse, CollapseIdentifiers, IsolateEnglish, comment parsers, HTML, Typst, LHS, git commit)',
